@@ -69,3 +69,14 @@ ENTRY["monitor_sigs"] = ENTRY["monitor_sigs"] + [m for m in _pr.MONITOR_SIGS if 
 ENTRY["trusted_base"] = ENTRY["trusted_base"] + _pr.TRUSTED_BASE
 ENTRY["assumptions"] = ENTRY["assumptions"] + _pr.ASSUMPTIONS
 ENTRY["level_text"] += _pr.LEVEL_TEXT
+
+# Fifth session: the RESPONSE side of the validator API (core/validatorapi/router.go proposeBlockV3 / createProposeBlockResponse,
+# aggregateAttestation, attestationData, validator-id parsing, duties wrappers; Component.Proposal's non-crypto decisions):
+# Model/RouterGet.lean, theorems Props/C14RouterGet.lean, stream routerget (real NewRouter over httptest in front of a scripted
+# Handler and the real Component; every 200 body decoded by the response headers alone and compared with the served object).
+from vlib import snippet_C14routerget as _rg
+ENTRY["streams"] = ENTRY["streams"] + [_rg.STREAM]
+ENTRY["lean_props_extra"].append(_rg.EXTRA_LEAN)
+ENTRY["monitor_sigs"] = ENTRY["monitor_sigs"] + [m for m in _rg.MONITOR_SIGS if m not in ENTRY["monitor_sigs"]]
+ENTRY["trusted_base"] = ENTRY["trusted_base"] + _rg.TRUSTED_BASE
+ENTRY["assumptions"] = ENTRY["assumptions"] + _rg.ASSUMPTIONS + getattr(_rg, "OBSERVATIONS", [])
